@@ -1,6 +1,6 @@
 """C08 — guard state is restored on every exit path and nests as a conjunction."""
 import copy
-import tracecheck, progs
+import tracecheck, progs, matrixcases
 
 PID = "C08"
 PROFILE = {"p_ignore": 0.2, "p_valid_inputs": 0.4, "guard_inputs": [0, 3], "max_guard_depth": 4, "lengths": [4, 6, 8, 10],
@@ -57,8 +57,25 @@ def post(cov, cases, recs):
     cov["max_nesting"] = max([len(pr[3]) for r in recs for pr in r["probes"]] + [0])
 
 
+def aborted_enter_cases():
+    """entering a block fails before the region is established (the snapshot of the variables cannot be taken): the caller catches
+    the error and carries on -- guard, error mode and ONE must be what they were (top level and inside an active region)"""
+    out = []
+    for c in (0, 1):
+        core = [["const", 1, ["int", 1]], ["bin", 2, "eq", 0, 1], ["bset_uncopyable", 9], ["try", [["oif", 2, [["probe"]], [], None]]], ["probe"]]
+        out.append(dict(cfg=dict(p=progs.BN, n=8, res=2, ign=0), prog=[["input", 0, "priv", 0]] + core, ins=[c, 1, 1, 1], nomodel=1))
+        out.append(dict(cfg=dict(p=progs.BN, n=8, res=2, ign=0), prog=[["input", 0, "priv", 0], ["input", 3, "priv", 1], ["guarded", 3, core + [["probe"]]], ["probe"]],
+                        ins=[c, 1, 1, 1], nomodel=1))
+    return out
+
+
 def run(tier, seed):
-    return tracecheck.run(PID, tier, seed, PROFILE, oracle, n_quick=240, n_thorough=6000, variants=variants, post=post, mask=1 | 4 | 8)
+    # deterministic part: every assertion / division reached through every kind of region (the error paths of C08), an integer
+    # first used inside a region and again after it, and block entries that fail before the region exists
+    pending = aborted_enter_cases() + matrixcases.assertion_contexts(tier, ctxs=["g1", "g0", "g1g0", "lazy0", "if1", "g0+plain", "g1+plain"],
+                                                                     bin_ctxs=["g0", "g0+plain", "g1+plain"])
+    return tracecheck.run(PID, tier, seed, PROFILE, oracle, n_quick=2 * len(pending) + 240, n_thorough=2 * len(pending) + 6000, variants=variants, post=post, mask=1 | 4 | 8,
+                          casegen=matrixcases.with_pending(pending, PROFILE))
 
 
 def replay(payload):
